@@ -121,11 +121,16 @@ def run(tier, seed, repo, focus=None):
                  "real LinearFourRates vs a plain-Python specification (confusion matrix with one pseudo-count per cell, four "
                  "rates, statistic updated only when the rate changed, Monte-Carlo quantile bounds re-drawn under the same "
                  "numpy seed schedule with the cache keyed by rounded rate / denominator, burn_in, subsample, tracked "
-                 "subsets, retraining_recs) on 0/1 label sequences with accuracy shifts; non-trivial = a warning or drift "
+                 "subsets, also parallelize=True with a single tracked rate, retraining_recs) on 0/1 label sequences with accuracy shifts; non-trivial = a warning or drift "
                  "occurs", {"seeds": 2 if quick else 8})
     known = load_known()
     grids = [dict(), dict(rates_tracked=["tpr", "ppv"], subsample=2, burn_in=4), dict(rates_tracked=["tnr"], time_decay_factor=0.8),
-             dict(round_val=1, subsample=2, num_mc=40), dict(burn_in=0, num_mc=30, warning_level=0.3, detect_level=0.15)]
+             dict(round_val=1, subsample=2, num_mc=40), dict(burn_in=0, num_mc=30, warning_level=0.3, detect_level=0.15),
+             # parallelize=True with ONE tracked rate: a single joblib task, so the run is deterministic under the seed schedule
+             # and must follow the same specification (with several tracked rates the threads race on numpy's global generator:
+             # excluded, A-SEQ)
+             dict(rates_tracked=["tnr"], parallelize=True), dict(rates_tracked=["ppv"], parallelize=True, subsample=2, burn_in=3),
+             dict(rates_tracked=["tpr"], parallelize=True, time_decay_factor=0.8), dict(rates_tracked=["npv"], parallelize=True, num_mc=40)]
     for params in grids:
         for s in range(2 if quick else 8):
             scn = {"params": params, "seed": seed + s, "n": 70 if quick else 140}
